@@ -124,9 +124,24 @@ def general_queries(t):
         "Select(ds, lambda e: [e.met, 1][1])",
         "Select(ds, lambda e: {'a': e.met, 'b': 2}['a'] + {'a': e.met, 'b': 2}.b)",
         "Select(ds, lambda e: {1: e.met, 2: 3}[1])",
+        # a key written twice: Python keeps the last value (repaired by 15bde23)
+        "Select(ds, lambda e: {'a': e.met, 'a': 2}['a'])",
+        "Select(ds, lambda e: {'a': 1, 'b': e.met, 'a': e.met + 1}.a)",
+        "Select(Select(ds, lambda e: {'a': e.met, 'b': 0, 'a': e.jets}), lambda d: Count(d.a) + d['b'])",
+        "Select(ds, lambda e: {1: e.met, True: 3, 1: e.met + 2}[1])",
         "Count(Where(Where(ds, lambda e: e.met > 0), lambda e: e.met < 5))",
         "Where(Where(ds, lambda a: a.met > 0), lambda b: Count(Where(b.jets, lambda a: a.pt > 1)) > 0)",
         "Where(ds, lambda e: True)",
+        # the second filter only evaluates on what the first lets through: the fused filter has
+        # to test in the written order
+        "Select(Where(Where(ds, lambda e: Count(e.jets) > 0), lambda e: e.jets[0].pt > 1), lambda e: e.jets[0].pt)",
+        "Where(Where(ds, lambda e: Count(e.jets) > 0), lambda f: f.jets[0].pt > 1)",
+        "Count(Where(Where(ds, lambda e: e.met != 0), lambda e: 10 / e.met > 1))",
+        "Where(Where(ds, lambda e: e.met != 0), lambda e: Count(Where(e.jets, lambda j: j.pt / e.met > 1)) >= 0)",
+        "Select(Where(Where(ds, lambda e: Count(e.jets) > 0), lambda e: First(e.jets).pt > 1), lambda e: First(e.jets).pt)",
+        "Where(Select(Where(ds, lambda e: Count(e.jets) > 0), lambda e: e.jets[0]), lambda j: j.pt > 0)",
+        "Select(ds, lambda e: Count(Where(Where(e.jets, lambda j: Count(j.tracks) > 0), lambda j: j.tracks[0].pt > 0)))",
+        "ds.Where(lambda e: e.jets.Count() > 0).Where(lambda e: e.jets[0].pt > 1).Select(lambda e: e.jets[0].eta)",
         "Select(ds, lambda e: e)",
         "Select(Where(ds, lambda e: e.met > 0), lambda e: e)",
         "SelectMany(SelectMany(ds, lambda e: e.jets), lambda j: j.tracks)",
